@@ -466,12 +466,13 @@ C11State(S, native) ==
                /\ DecOk(b.price) /\ b.price.n > 0 /\ PrecOk(b.price, cfg.prec), "C11.wellformed")
   \cup If(/\ \A k \in DOMAIN S.asks : S.asks[k].id = k
           /\ \A k \in DOMAIN S.bids : S.bids[k].id = k, "C11.key_eq_id")
-  \cup If(S.extra = <<>>, "C11.no_extra_keys")
+  \* storage entries other than the configuration, the version and the two order maps are not the
+  \* property's business (an implementation may keep more); they show up as DRIFT only
 
 -----------------------------------------------------------------------------
 (* C12  Configuration changes *)
 RateNum(f) == IF f.some THEN <<TRUE, f.rate.n>> ELSE <<FALSE, 0>>
-Market(c) == <<c.name, c.bind, c.base, c.convs, c.quotes, c.prec, c.inc>>
+Market(c) == <<c.name, c.base, c.convs, c.quotes, c.prec, c.inc>>
 
 \* what a supplied (rate, account) pair must install
 PairInstalls(rate, acct, old) ==
@@ -537,7 +538,7 @@ C13Step(pre, env, req, resp, post) ==
                  askattrs |-> m.askattrs, bidattrs |-> m.bidattrs, prec |-> m.prec, inc |-> m.inc]
     IN   If(resp.ok => Coherent(m), "C13.only_if")
     \cup If(Coherent(m) => resp.ok, "C13.if")
-    \cup If(resp.ok => (post.cfg = want /\ post.ver = PkgVer /\ post.asks = pre.asks /\ post.bids = pre.bids),
+    \cup If(resp.ok => ([post.cfg EXCEPT !.bind = ""] = want /\ post.ver = PkgVer /\ post.asks = pre.asks /\ post.bids = pre.bids),
             "C13.stored")
   ELSE IF req.kind \in {"create_ask", "create_bid"} /\ resp.ok THEN
     If(Integral(req.price, req.size) /\ Integral(req.price, pre.cfg.inc), "C13.integrality")
@@ -702,28 +703,29 @@ C17(pre, env, req, resp, post) ==
               distinct == cfg.askfee.some /\ cfg.bidfee.some /\ cfg.askfee.acct # cfg.bidfee.acct
                           /\ {cfg.askfee.acct, cfg.bidfee.acct} \cap {seller, b.owner, Contract} = {}
           IN If(/\ Has(at, "size") /\ at["size"] = req.size
-                /\ Has(at, "price") /\ at["price"] = req.price.n
+                \* "wherever it reports amounts they are the truth": price and fees are judged when present
+                /\ Has(at, "price") => at["price"] = req.price.n
                 \* quote amounts are whole units: a reported price x size that is not whole cannot be what was executed
-                /\ Integral(req.price, req.size)
-                /\ Has(at, "ask_fee") /\ at["ask_fee"] = afee
-                /\ Has(at, "bid_fee") /\ at["bid_fee"] \in bfees
+                /\ Has(at, "price") => Integral(req.price, req.size)
+                /\ Has(at, "ask_fee") => (at["ask_fee"] = afee /\ (~cfg.askfee.some => at["ask_fee"] = 0))
                 \* a fee that has no account to go to cannot have been paid
-                /\ (~cfg.askfee.some => at["ask_fee"] = 0) /\ (~cfg.bidfee.some => at["bid_fee"] = 0)
-                /\ (distinct => (at["ask_fee"] = Delta(req, resp, cfg.askfee.acct, b.quote)
-                                 /\ at["bid_fee"] = Delta(req, resp, cfg.bidfee.acct, b.quote))),
+                /\ Has(at, "bid_fee") => (at["bid_fee"] \in bfees /\ (~cfg.bidfee.some => at["bid_fee"] = 0))
+                /\ (distinct /\ Has(at, "ask_fee")) => at["ask_fee"] = Delta(req, resp, cfg.askfee.acct, b.quote)
+                /\ (distinct /\ Has(at, "bid_fee")) => at["bid_fee"] = Delta(req, resp, cfg.bidfee.acct, b.quote),
                 "C17.match_amounts")
         ELSE {})
   \cup (IF req.kind = "create_ask" THEN
-          If(/\ Has(at, "price") /\ at["price"] = DecStr(req.price) /\ Has(at, "size") /\ at["size"] = req.size
+          If(/\ Has(at, "price") => at["price"] = DecStr(req.price)
+             /\ Has(at, "size") /\ at["size"] = req.size
              /\ Has(at, "class") /\ req.id \in DOMAIN post.asks /\ at["class"] = post.asks[req.id].class,
              "C17.create_approve")
         ELSE IF req.kind = "create_bid" THEN
-          If(Has(at, "price") /\ at["price"] = DecStr(req.price) /\ Has(at, "size") /\ at["size"] = req.size,
+          If((Has(at, "price") => at["price"] = DecStr(req.price)) /\ Has(at, "size") /\ at["size"] = req.size,
              "C17.create_approve")
         ELSE IF req.kind = "approve_ask" /\ req.id \in DOMAIN post.asks THEN
-          If(/\ Has(at, "price") /\ at["price"] = DecStr(post.asks[req.id].price)
-             /\ Has(at, "size") /\ at["size"] = post.asks[req.id].size
-             /\ Has(at, "class") /\ at["class"] = post.asks[req.id].class, "C17.create_approve")
+          If(/\ Has(at, "price") => at["price"] = DecStr(post.asks[req.id].price)
+             /\ Has(at, "size") => at["size"] = post.asks[req.id].size
+             /\ Has(at, "class") => at["class"] = post.asks[req.id].class, "C17.create_approve")
         ELSE {})
   \cup If(Observe(ShadowOf(pre), at) = ShadowOf(post), "C17.shadow")
 
